@@ -142,7 +142,7 @@ func runDelegate(c *core.Ctx) []core.Obligation {
 							continue
 						}
 						ky, ok := constUint(bo.Y)
-						if !ok || ky != kval || !namedTypeIs(bo.Type(), "json", "ParseFlags") {
+						if !ok || ky&kval == 0 || !namedTypeIs(bo.Type(), "json", "ParseFlags") {
 							continue
 						}
 						sites++
